@@ -35,7 +35,17 @@ func migFields(es []v1Entry) []any {
 	return out
 }
 
-func writeV1(path string, es []v1Entry) {
+// model topic names of the migration traces
+var migTopics = [2]string{"A", "AB"}
+
+func migRealTopic(nc nameClass, model string) string {
+	if model == migTopics[0] {
+		return nc.Topics[0]
+	}
+	return nc.Topics[1]
+}
+
+func writeV1(path string, es []v1Entry, nc nameClass) {
 	st, err := rt.NewBoltStore(path, true, rt.NewDiag())
 	if err != nil {
 		rt.Fatalf("c08mig: %v", err)
@@ -46,10 +56,11 @@ func writeV1(path string, es []v1Entry) {
 	}
 	byTopic := map[string]map[string]alertservice.EventState{}
 	for _, e := range es {
-		if byTopic[e.Topic] == nil {
-			byTopic[e.Topic] = map[string]alertservice.EventState{}
+		tp := migRealTopic(nc, e.Topic)
+		if byTopic[tp] == nil {
+			byTopic[tp] = map[string]alertservice.EventState{}
 		}
-		byTopic[e.Topic][e.ID] = alertservice.EventState{Level: alert.Level(e.Lvl), Message: "m", Time: rt.DefaultTime.T(1)}
+		byTopic[tp][nc.realID(e.ID)] = alertservice.EventState{Level: alert.Level(e.Lvl), Message: "m", Time: rt.DefaultTime.T(1)}
 	}
 	for _, tp := range rt.SortedKeys(byTopic) {
 		if err := dao.Put(alertservice.TopicState{Topic: tp, EventStates: byTopic[tp]}); err != nil {
@@ -87,22 +98,22 @@ func openOn(path string, onUpdate func(ns, phase string, ops []rt.TxOp, err erro
 // scratch paths differ from run to run: keep error texts deterministic
 var pathRE = regexp.MustCompile(`/[^ "]*kvh-c08-[0-9]+/`)
 
-func migState(s *alertservice.Service, topics []string) rt.M {
+func migState(s *alertservice.Service, nc nameClass) rt.M {
 	out := rt.M{}
-	for _, tp := range topics {
-		out[tp] = stateOf(s, tp)
+	for _, tp := range migTopics {
+		out[tp] = stateOf(s, migRealTopic(nc, tp), nc)
 	}
 	return out
 }
 
 func exists(p string) bool { _, err := os.Stat(p); return err == nil }
 
-func doMig(es []v1Entry, t *rt.Trace) {
+func doMig(es []v1Entry, names int, t *rt.Trace) {
+	nc := nameClasses[names]
 	dir := tmpDir()
 	defer os.RemoveAll(dir)
-	topics := []string{"A", "AB"}
 	path := join(dir, "k.db")
-	writeV1(path, es)
+	writeV1(path, es, nc)
 	orig := join(dir, "orig.db")
 	copyFile(path, orig)
 	bakPath := path + alertservice.TopicStoreBackupSuffix
@@ -144,13 +155,13 @@ func doMig(es []v1Entry, t *rt.Trace) {
 		rt.Fatalf("c08mig: uninterrupted open failed: %v", err)
 	}
 	snapRef.OnUpdate = nil
-	final := migState(s, topics)
+	final := migState(s, nc)
 	bakAfter := exists(bakPath)
 	s.Close()
 	st.Close()
 
 	for i, b := range bs {
-		t.Reset(rt.M{"kind": "mig", "v1": migFields(es)})
+		t.Reset(rt.M{"kind": "mig", "v1": migFields(es), "names": names})
 		t.Event("Open", rt.M{"state": final, "bakLeft": bakAfter, "commits": len(bs) / 2})
 		t.Event("CrashAt", rt.M{"i": i, "ns": b.ns, "phase": b.phase, "bak": b.bak, "writes": b.nops})
 		d2 := join(dir, fmt.Sprintf("r%d", i))
@@ -164,7 +175,7 @@ func doMig(es []v1Entry, t *rt.Trace) {
 		if s2 == nil {
 			t.Event("Reopen", rt.M{"ok": false, "err": errText, "state": rt.M{"A": []any{}, "AB": []any{}}, "bakLeft": exists(p2 + alertservice.TopicStoreBackupSuffix)})
 		} else {
-			t.Event("Reopen", rt.M{"ok": true, "err": "", "state": migState(s2, topics), "bakLeft": exists(p2 + alertservice.TopicStoreBackupSuffix)})
+			t.Event("Reopen", rt.M{"ok": true, "err": "", "state": migState(s2, nc), "bakLeft": exists(p2 + alertservice.TopicStoreBackupSuffix)})
 			s2.Close()
 			snap2.Close()
 			// and once more (a second restart must not migrate again or lose anything)
@@ -172,12 +183,12 @@ func doMig(es []v1Entry, t *rt.Trace) {
 			if s3 == nil {
 				t.Event("Reopen", rt.M{"ok": false, "err": errText3, "state": rt.M{"A": []any{}, "AB": []any{}}, "bakLeft": exists(p2 + alertservice.TopicStoreBackupSuffix)})
 			} else {
-				t.Event("Reopen", rt.M{"ok": true, "err": "", "state": migState(s3, topics), "bakLeft": exists(p2 + alertservice.TopicStoreBackupSuffix)})
+				t.Event("Reopen", rt.M{"ok": true, "err": "", "state": migState(s3, nc), "bakLeft": exists(p2 + alertservice.TopicStoreBackupSuffix)})
 				s3.Close()
 				snap3.Close()
 			}
 		}
-		t.Distinct(fmt.Sprintf("%v@%d", es, i))
+		t.Distinct(fmt.Sprintf("%v/%d@%d", es, names, i))
 	}
 }
 
@@ -206,11 +217,20 @@ func RunMig(r *rt.Run) error {
 	}
 	rec(0, nil)
 	sort.SliceStable(all, func(i, j int) bool { return len(all[i]) > len(all[j]) })
-	for _, es := range all {
-		doMig(es, t)
+	// every V1 content under every name class (plain, "/", glob metacharacters, space +
+	// unicode, dots / blank, quotes / escapes): V1 object IDs go through IndexedStore keys,
+	// the id index and the glob-pattern List of the migration
+	for nm := range nameClasses {
+		for _, es := range all {
+			if nm > 0 && len(es) > 2 {
+				continue // thorough: the larger contents only with plain names
+			}
+			doMig(es, nm, t)
+		}
 	}
+	r.Extra["name_classes"] = len(nameClasses)
 	r.Extra["v1_contents"] = len(all)
 	r.Extra["max_entries"] = maxN
-	r.Finish("V1 topic stores (sets of (topic, ID, level) over topics A, AB x IDs a, ab x 4 levels) migrated by Service.Open on an observed store; for every commit boundary of every namespace during Open the database and the migration's backup file as they stood are copied and a fresh service is opened on the copy, twice; distinct by (V1 content, boundary)", true)
+	r.Finish("V1 topic stores (sets of (topic, ID, level) over topics A, AB x IDs a, ab x 4 levels, real names from 6 name classes) migrated by Service.Open on an observed store; for every commit boundary of every namespace during Open the database and the migration's backup file as they stood are copied and a fresh service is opened on the copy, twice; distinct by (V1 content, boundary)", true)
 	return nil
 }
